@@ -123,6 +123,11 @@ def forgeries(blob, rec):
     plans = [("y=1", p_, 1, [1]), ("y=0", p_, 0, [0]), ("y=p-1", p_, p_ - 1, [1, p_ - 1]), ("p=2,y=1", 2, 1, [1]), ("p=1", 1, 0, [0]),
              ("p=4,y=2", 4, 2, [0]), ("p=9,y=3", 9, 3, [0]), ("p=8,y=4", 8, 4, [0])]       # in-range values of a foreign group with a predictable secret
     plans = [(label, kl, fo, g_ % max(fo, 1), y, bets) for (label, fo, y, bets) in plans]
+    # public values OUTSIDE [0, p) that are congruent to a degenerate one (p, p + 1, and — in a structure one octet wider, p and g
+    # zero-padded, so the same group as integers — 2p − 1, 2p, 2p + 1): the secret is 0, 1 or ±1 whatever the private key is
+    plans += [("y=p", kl, p_, g_, p_, [0]), ("y=p+1", kl, p_, g_, p_ + 1, [1])] if p_ + 1 < 256 ** kl else []
+    plans += [("y=2p-1,wider", kl + 1, p_, g_, 2 * p_ - 1, [1, p_ - 1]), ("y=2p,wider", kl + 1, p_, g_, 2 * p_, [0]), ("y=2p+1,wider", kl + 1, p_, g_, 2 * p_ + 1, [1]),
+              ("y=p+1,wider", kl + 1, p_, g_, p_ + 1, [1])]
     # a tiny group whose encoding is a byte PREFIX of the real one (key_length 1 or 2, p and g cut from the leading bytes of the
     # real p ‖ g or of the real p alone), with an idempotent or nilpotent public value: the secret does not depend on any private key
     pb, gb = ki[8:8 + kl], ki[8 + kl:8 + 2 * kl]
